@@ -507,6 +507,7 @@ func runMapOn[K, U any](c MapCase, o *vk.Obs, kk elem.Kit[K], vkit elem.Kit[U], 
 		return msg
 	}
 	for i, op := range c.Ops {
+		o.Step() // interleaved execution (vk.Interleave) switches to the other case here
 		r.step = i
 		m := r.m[op.B&1]
 		r.cur = op.I % 3
